@@ -24,7 +24,6 @@ package server
 
 import (
 	"net/http"
-	"regexp"
 	"strconv"
 	"strings"
 
@@ -37,11 +36,15 @@ import (
 	"golang.org/x/net/context"
 )
 
-var (
-	noCacheReg = regexp.MustCompile(`no-cache|no-store|private`)
-	sMaxAgeReg = regexp.MustCompile(`s-maxage=(\d+)`)
-	maxAgeReg  = regexp.MustCompile(`max-age=(\d+)`)
-)
+// parseCacheControlSeconds parse the delta-seconds of cache control directive,
+// the value may be a quoted-string, invalid value is treated as 0
+func parseCacheControlSeconds(value string) int {
+	v, err := strconv.Atoi(strings.Trim(strings.TrimSpace(value), `"`))
+	if err != nil || v < 0 {
+		return 0
+	}
+	return v
+}
 
 // 根据Cache-Control的信息，获取s-maxage 或者max-age的值
 func getCacheMaxAge(header http.Header) int {
@@ -49,33 +52,43 @@ func getCacheMaxAge(header http.Header) int {
 	if len(header.Values(elton.HeaderSetCookie)) != 0 {
 		return 0
 	}
-	// 如果没有设置cache-control，则不可缓存
-	cc := strings.Join(header.Values(elton.HeaderCacheControl), ",")
-	if cc == "" {
-		return 0
-	}
-
-	// 如果设置不可缓存，返回0
-	if noCacheReg.MatchString(cc) {
-		return 0
+	// cache-control的指令名称不区分大小写，按指令逐个判断（而非字符串包含），
+	// 避免如 Private 或 x-max-age=60 被错误处理
+	sMaxAge := -1
+	maxAge := -1
+	for _, line := range header.Values(elton.HeaderCacheControl) {
+		for _, item := range strings.Split(line, ",") {
+			arr := strings.SplitN(item, "=", 2)
+			switch strings.ToLower(strings.TrimSpace(arr[0])) {
+			case "no-cache", "no-store", "private":
+				// 如果设置不可缓存，返回0
+				return 0
+			case "s-maxage":
+				if sMaxAge < 0 && len(arr) == 2 {
+					sMaxAge = parseCacheControlSeconds(arr[1])
+				}
+			case "max-age":
+				if maxAge < 0 && len(arr) == 2 {
+					maxAge = parseCacheControlSeconds(arr[1])
+				}
+			}
+		}
 	}
 	// 优先从s-maxage中获取
-	var maxAge = 0
-	result := sMaxAgeReg.FindStringSubmatch(cc)
-	if len(result) == 2 {
-		maxAge, _ = strconv.Atoi(result[1])
-	} else {
-		// 从max-age中获取缓存时间
-		result = maxAgeReg.FindStringSubmatch(cc)
-		if len(result) == 2 {
-			maxAge, _ = strconv.Atoi(result[1])
-		}
+	if sMaxAge >= 0 {
+		maxAge = sMaxAge
+	}
+	// 如果没有设置cache-control(s-maxage或max-age)，则不可缓存
+	if maxAge <= 0 {
+		return 0
 	}
 
 	// 如果有设置了 age 字段，则最大缓存时长减少
 	if age := header.Get(headerAge); age != "" {
 		v, _ := strconv.Atoi(age)
-		maxAge -= v
+		if v > 0 {
+			maxAge -= v
+		}
 	}
 
 	return maxAge
